@@ -83,7 +83,8 @@ func identityMembership(universe []uint16) map[UniversalID]PartyID {
 
 func newRBCWorld(r *prng, id int, members, honest, universe []uint16, mode string, acceptEmpty bool) (*rbcWorld, error) {
 	w := &rbcWorld{r: r, members: members, honest: map[uint16]*party{}, sess: map[uint16]*session{}, hashes: map[string]string{}}
-	w.sc = &jScenario{Kind: "rbc", ID: id, Mode: mode, N: len(members), Members: members, Honest: honest, AcceptEmpty: acceptEmpty}
+	w.sc = &jScenario{Kind: "rbc", ID: id, Mode: mode, N: len(members), Members: members, Honest: honest, AcceptEmpty: acceptEmpty,
+		Events: []jEvent{}, Sent: []jBcast{}, Hash: [][2]string{}}
 	w.noteHash(nil)
 	sorted := append([]uint16(nil), members...)
 	sort.Slice(sorted, func(i, j int) bool { return sorted[i] < sorted[j] })
